@@ -357,17 +357,20 @@ fn annotation_sites(m: &Model, ctx: &mut Ctx) {
         let consts = const_resolver(m);
         let ev = Evaluator { consts: &consts, call_hook: &crate::eval::no_hook, inline: None };
         let params: Vec<String> = f.sig.inputs.iter().filter_map(|a| match a { syn::FnArg::Typed(t) => Some(tok(&t.pat)), _ => None }).collect();
-        for comments in ["", " the speed of the vehicle"] {
+        // … and for names that merely *resemble* the compiler's own synthetic names: an ASN.1 name cannot contain `_`, which is what
+        // keeps the extension-group prefix (`ext_group_`) apart from the legal component name `ext-group-id`
+        for (asn_name, comments) in [("Speed-Value", ""), ("Speed-Value", " the speed of the vehicle"), ("ext-group-id", ""), ("extGroupId", ""), ("inner-value", ""), ("anonymous-item", "")] {
+            ctx.oblige("C16.annot", &format!("renders-original-name:{}", asn_name), true);
             let mut env = Env::new();
             env.insert("self".into(), Val::ctor("Rasn"));
-            env.insert(params.first().cloned().unwrap_or("name".into()), Val::Str("Speed-Value".into()));
+            env.insert(params.first().cloned().unwrap_or("name".into()), Val::Str(asn_name.into()));
             env.insert(params.get(1).cloned().unwrap_or("comments".into()), Val::Str(comments.into()));
             env.insert(params.get(2).cloned().unwrap_or("ty".into()), Val::Ctor("Integer".into(), vec![Val::Opaque("i".into())], Default::default()));
             match ev.eval_fn_body(&f.block, &mut env) {
                 Ok(v) => {
                     let t = v.show().replace(' ', "");
-                    if !(t.contains("identifier=\"Speed-Value\"") || t.contains("identifier=Speed-Value")) {
-                        ctx.violate("C16.annot", "renders-original-name", &f.file, f.line, &format!("format_identifier_annotation(\"Speed-Value\", comments {:?}) renders `{}`: it must render `identifier = <original ASN.1 name>` for ordinary (non-hoisted) definitions", comments, t.chars().take(80).collect::<String>()));
+                    if !(t.contains(&format!("identifier=\"{}\"", asn_name)) || t.contains(&format!("identifier={}", asn_name))) {
+                        ctx.violate("C16.annot", "renders-original-name", &f.file, f.line, &format!("format_identifier_annotation({:?}, comments {:?}) renders `{}`: it must render `identifier = <original ASN.1 name>` for ordinary (non-hoisted) definitions and components", asn_name, comments, t.chars().take(80).collect::<String>()));
                     }
                 }
                 Err(e) => ctx.fail_closed("C16.annot", &format!("[format_identifier_annotation]: {}", e)),
